@@ -21,11 +21,13 @@ namespace GeographicLib {
 
   void Georef::Forward(real lat, real lon, int prec, string& georef) {
     using std::isnan;           // Needed for Centos 7, ubuntu 14
+    using std::isinf;
     if (fabs(lat) > Math::qd)
       throw GeographicErr("Latitude " + Utility::str(lat)
                           + "d not in [-" + to_string(Math::qd)
                           + "d, " + to_string(Math::qd) + "d]");
-    if (isnan(lat) || isnan(lon)) {
+    // lon = +/-inf is normalized to a nan
+    if (isnan(lat) || isnan(lon) || isinf(lon)) {
       georef = "INVALID";
       return;
     }
